@@ -350,6 +350,8 @@ def srv_alphabet():
     A['s_open_status'] = lambda i, c: env(i, m=S, src='cliX', dst='srv', st=(0, 'OK'), c=c)
     A['s_body'] = lambda i, c: env(i, m=S, b='b%d' % i, src='cliX', dst='srv')
     A['s_rawbody'] = lambda i, c: env(i, m=S, braw='@5:%d' % (i + 3), src='cliX', dst='srv')
+    A['s_body_empty'] = lambda i, c: env(i, m=S, b='', src='cliX', dst='srv')        # a message that encodes to zero bytes
+    A['u_empty'] = lambda i, c: env(i, m=U, b='', src='cliX', dst='srv', c=c)         # a valid request with an empty message
     A['s_close'] = lambda i, c: env(i, m=S, st=(0, 'OK'), t=[], src='cliX', dst='srv')
     A['s_close_err'] = lambda i, c: env(i, m=S, st=(10, 'aborted'), t=[], src='cliX', dst='srv')
     A['s_body_trailer'] = lambda i, c: env(i, m=S, b='bt', t=[], src='cliX', dst='srv')
@@ -443,6 +445,8 @@ def cli_alphabet():
     A['badmd_hdr'] = lambda i, m: env(i, m=m, b='x', md=[['h-bin', '***']])
     A['badmd_trailer'] = lambda i, m: env(i, m=m, st=(0, 'OK'), t=[['t-bin', '***']])
     A['rawbody'] = lambda i, m: env(i, m=m, braw='@7:%d' % (i + 11))
+    A['body_empty'] = lambda i, m: env(i, m=m, b='')                                    # a message that encodes to zero bytes
+    A['body_empty_trailer'] = lambda i, m: env(i, m=m, b='', t=[])
     A['rawbody_trailer'] = lambda i, m: env(i, m=m, braw='@7:%d' % (i + 13), t=[])
     A['empty'] = lambda i, m: dict(id=i, noh=True)
     A['status_only'] = lambda i, m: env(i, m=m, st=(2, 'unknown'))
